@@ -4,6 +4,7 @@ import Driver.Util
 
     mode plain | mode elt
     task <id>: <subs>      body of task <id>
+    dtor <id>: <subs>      what the destruction of task <id>'s functor object does (the destructor of what it owns)
     pre: <subs>            what the loop's owner does before loop() (elt: inside the ThreadInitCallback)
     thread <k>: <subs>     program of thread k
     follow <k k k …>       which thread performs the next visible event
@@ -12,6 +13,8 @@ import Driver.Util
           (ids of q/r ≤ 65535, of p/`task` ≤ 255; `qburst<a>x<n>` is shorthand for `q<a> q<a+1> … q<a+n-1>`, n ≤ 20000,
           expanded here: the model sees the single `queue` calls)
 
+  Events: point <name> | exec <id> | dtor <id> | wakeup | wakeread | post <id> | started | started null | joined |
+  returned | destroyed | uaf.
   One `follow` entry `k` = thread `k` is stepped until one of its steps has a visible action (`out ≠ none`),
   which is printed as `T<k> <event>` (followed by `T<k> uaf` when the step touched a destroyed loop).
   While `k` cannot move, the other threads take their silent steps (e.g. `startLoop` creates the thread); a thread
@@ -26,6 +29,7 @@ structure Cfg where
   elt : Bool := false
   haveMode : Bool := false
   tasks : List (Nat × List Sub) := []
+  dtors : List (Nat × List Sub) := []
   pre : List Sub := []
   threads : List (Nat × List Sub) := []
   follow : List Nat := []
@@ -91,6 +95,8 @@ def parseLine (c : Cfg) (line : String) : Option Cfg :=
         | ["pre"], some b => some { c with pre := b }
         | ["task", id], some b => (parseNat id).bind fun n =>
             if n ≤ 255 then some { c with tasks := (n, b) :: c.tasks.filter (fun p => p.1 != n) } else none
+        | ["dtor", id], some b => (parseNat id).bind fun n =>
+            if n ≤ 255 then some { c with dtors := (n, b) :: c.dtors.filter (fun p => p.1 != n) } else none
         | ["thread", id], some b => (parseNat id).bind fun n =>
             if n ≤ 255 then some { c with threads := (n, b) :: c.threads.filter (fun p => p.1 != n) } else none
         | _, _ => none
@@ -99,6 +105,7 @@ def parseLine (c : Cfg) (line : String) : Option Cfg :=
 def showEvent : Event → String
   | .point n => "point " ++ n
   | .exec t => s!"exec {t}"
+  | .dtor t => s!"dtor {t}"
   | .wakeup => "wakeup"
   | .wakeread => "wakeread"
   | .post t => s!"post {t}"
@@ -181,8 +188,9 @@ def main (lines : Array String) : IO UInt32 := do
     out.putStrLn "--"
     return 2
   let tasks := c.tasks
+  let dtors := c.dtors
   let threads := c.threads
-  let mut s : St := init c.elt false (fun t => lookup tasks t) c.pre (fun k => lookup threads k)
+  let mut s : St := init c.elt false (fun t => lookup tasks t) (fun t => lookup dtors t) c.pre (fun k => lookup threads k)
   let mut cur : Nat := 0
   -- the directed part
   for k in c.follow do
